@@ -106,6 +106,8 @@ type SpecDB struct {
 	ZeroInit  map[string]*zeroInit // type string -> fact about a freshly allocated object ("this")
 	zeroDecls []zeroDecl
 	Immutable map[string]bool // type strings whose referents are never modified (refs are values)
+	// Layered: ghost variables indexed (first key) by store layer; viewEq / viewEqOld / view(l) range over them
+	Layered []string
 	Errors    []string
 	Skipped   []string
 	Files     []string
@@ -162,7 +164,7 @@ func (db *SpecDB) parseSpecFile(file string, pkgPath string) {
 		s  string
 	}
 	var ents []ent
-	topKw := map[string]bool{"import": true, "package": true, "opaque": true, "immutable": true, "ghost": true, "axiom": true, "func": true, "loop": true, "zeroinit": true, "functype": true}
+	topKw := map[string]bool{"import": true, "package": true, "opaque": true, "immutable": true, "ghost": true, "axiom": true, "func": true, "loop": true, "zeroinit": true, "functype": true, "layered": true}
 	for i, raw := range lines {
 		l := strings.TrimSpace(raw)
 		var body string
@@ -243,6 +245,20 @@ func (db *SpecDB) parseSpecFile(file string, pkgPath string) {
 			} else {
 				db.Opaque = append(db.Opaque, opaqueDecl{T: &TypeExpr{Kind: "immutable", V: te}, PkgPath: pkgPath, Imports: copyMap(imports)})
 			}
+		case "layered":
+			// layered g1, g2, ... : these ghost variables are maps whose first key is a store layer
+			for _, n := range strings.Split(rest, ",") {
+				if n = strings.TrimSpace(n); n != "" {
+					dup := false
+					for _, x := range db.Layered {
+						dup = dup || x == n
+					}
+					if !dup {
+						db.Layered = append(db.Layered, n)
+					}
+				}
+			}
+			cur, curLoop = nil, nil
 		case "zeroinit":
 			// zeroinit T : expr-over-this
 			i := strings.Index(rest, ":")
